@@ -40,6 +40,7 @@ inline void offsets(const std::vector<int>& dims, const std::vector<R1>& rs, std
 }
 
 template <class T> inline void cmp_pick(Ctx& c, const T* got, const T* parent, const std::vector<int>& offs, const char* what, const std::string& desc, long base) {
+    c.digest_add(got, offs.size());
     for (size_t j = 0; j < offs.size(); ++j) {
         ++c.compared;
         if (same_val(got[j], parent[offs[j]])) continue;
